@@ -10,6 +10,9 @@ local env = {}
 
 local loader_cache = {}
 local loaddata_cache = {}
+-- Bound before any page code runs: page code can reach the string table
+-- through the string metatable and replace its functions
+local _string_byte = string.byte
 local _orig_package = package
 -- Modules loaded by the sandboxed require().  This is deliberately not the
 -- host package.loaded, which also holds io, os, package, _G, python, ...
@@ -80,7 +83,7 @@ function new_loader(modname, mod_env)
     local fn = nil
     local msg = nil
     if type(content) == "string" then
-        if string.byte(content, 1) == 27 then
+        if _string_byte(content, 1) == 27 then
             -- precompiled chunks bypass the checks of the compiler (the
             -- bytecode verifier of Lua 5.1 is known to be unsound)
             return nil, "module '" .. modname ..
